@@ -108,3 +108,9 @@ chk("C05", "exploration", "generate->verify round trips over random JSON trees a
     "checker callback must be JSON-equal (type-strict) to the harness' inputs plus alg/typ/iat. The run counts ECDSA signatures "
     "with a leading zero byte in r or s and is inconclusive below a minimum.",
     "Trusted: Python json, OpenSSL reference verifier. secp256k1 with GnuTLS is outside the support matrix.", "DESIGN.md 3/C05")
+chk("C08", "exploration", "online component-wise oracle (OpenSSL direct) over harness-written JWKs of fresh keys, under ASan/UBSan/LSan",
+    "4.5e3 (quick) / 7e4 (thorough) JWK texts written by the harness from keys it generated (all types and sizes, private and "
+    "public forms, optional alg/kid/use/key_ops in all combinations, minimal and zero-padded integers, foreign/unknown extra "
+    "members) are imported; the item's PEM is re-parsed with OpenSSL and n,e,d,p,q,dp,dq,qi / group,x,y,d / raw OKP keys / oct "
+    "bytes are compared with the original, as are kty, bits, curve, is_private, alg, kid, use and key_ops.",
+    "Trusted: OpenSSL key accessors on the harness' own key object.", "DESIGN.md 3/C08")
